@@ -58,7 +58,7 @@ struct C03 : Scenario {
         c.linearRF = r.chance(0.6);
         c.renorm = -1; c.gap = 0; c.tdamp = 0; c.fptype = r.chance(0.5) ? 3 : 0;
         c.outstep = 1; c.saveps = r.chance(0.5) ? 0 : 5;
-        c.clamp = false;
+        c.clamp = r.chance(0.25);     // (accepted by the CPU maps without effect on this tree)
         c.padding = 2;
         if (r.chance(0.2)) c.fs = std::round(r.uniform(2e4, 8e4));
         if (r.chance(0.2)) c.H = (double)r.pick(std::vector<long>{100, 184, 30});
